@@ -14,22 +14,25 @@ CLAIMS = {
         text="Decides structural clauses only: bookkeeping memory is published (commit_snapshot/insert_partial) only after the commit "
              "of the transaction that wrote the gap/partial rows; insert_db uses the data transaction; closed inventories of writers of "
              "the bookkeeping tables and of BookedVersions/VersionsSnapshot fields; paired DB/in-memory gap updates; reload reads the "
-             "tables the writers write; one lock guard per actor in generate_sync; one constant base for 'full sequence range'. "
-             "Does NOT decide the range arithmetic of compute_gaps_change nor the partition of 1..head (runtime values).",
+             "tables the writers write; one lock guard per actor in generate_sync; one constant base for 'full sequence range'; commit_snapshot copies every field; the contains_version "
+             "truth table; a new partial raises the head; compute_gaps_change strikes applied versions only after all gap ranges are gathered. "
+             "Does NOT decide the remaining range arithmetic of compute_gaps_change nor the partition of 1..head (runtime values).",
         note="SQLite atomic commit, rusqlite Transaction drop = rollback, rangemap semantics trusted; value-level gap arithmetic not decided",
         technique="MIR dominance (publish-after-commit), who-may-write inventories, sibling agreement of constants/SQL tables",
         ref="§3 C02"),
     "C03": dict(
         text="Decides structural clauses: only complete changesets reach crsql_changes (closed writer inventory; is_complete truth table; "
              "apply guarded by zero gaps over 0..=last_seq; single INSERT..SELECT in the bookkeeping transaction); the seq-range merge "
-             "SQL predicate is equivalent to overlap-or-adjacent on an exhaustive small box; column lists agree. "
+             "SQL predicate is equivalent to overlap-or-adjacent on an exhaustive small box; column lists agree; the Cleared fast path is taken iff complete and empty; "
+             "buffered rows are deleted in the applying transaction; at restart the received ranges are reloaded row by row, unaggregated. "
              "Does NOT decide equality with the unchunked apply (cr-sqlite) nor liveness.",
         note="cr-sqlite merge semantics, SQLite, rangemap trusted",
         technique="MIR dominance + guard truth tables + SQL predicate evaluation on an exhaustive box + column agreement",
         ref="§3 C03"),
     "C04": dict(
         text="Decides narrow structural clauses of compute_available_needs: every pushed need is dominated by the own-actor and zero-head "
-             "skips; request ranges derive only from the peer's advertised heads / needs; client requests derive only from the computed needs. "
+             "skips; request ranges derive only from the peer's advertised heads / needs; client requests derive only from the computed needs; every non-skipped "
+             "advertised head consults our need, partial_need and head, and each productive branch reaches its push (structural half of completeness). "
              "Does NOT decide soundness/completeness as set inclusions over all state pairs.",
         note="rangemap semantics trusted; set arithmetic on runtime values not decided",
         technique="MIR dominance of guards + provenance slices",
@@ -38,27 +41,31 @@ CLAIMS = {
         text="Decides structural clauses of the sync server: 'empty' is declared only on the (not needed, not buffered) edge; Changeset::Empty "
              "only from that set; needs are filtered by the server's own bookkeeping before being served; all queries of one need share one "
              "read transaction; chunker range parameters equal the SQL range parameters; SELECT column lists agree with row_to_change; "
-             "cluster check and rejection precede state/data in serve_sync. Does NOT decide correctness for every DB state x request.",
+             "cluster check and rejection precede state/data in serve_sync; leftover ranges only shrink by what was served; after a row error no further chunk of "
+             "that version is pulled or sent. Does NOT decide correctness for every DB state x request.",
         note="SQLite snapshot isolation, speedy framing trusted",
         technique="MIR dominance, guard truth tables, parameter/column agreement",
         ref="§3 C05"),
     "C06": dict(
         text="Decides the structural mechanism of crash safety: every data/bookkeeping DML of a step runs on one transaction value (no DML on a bare "
              "connection in writer bodies), bookkeeping rows are written before that transaction's commit, reload reads exactly the tables "
-             "writers write, startup re-schedules fully buffered versions, durability pragmas present. Does NOT place crashes.",
+             "writers write (every row of the actor, unaggregated, until exhaustion, each row recorded), startup re-schedules every fully buffered version, durability "
+             "pragmas present. Does NOT place crashes.",
         note="SQLite atomic commit + WAL/synchronous=NORMAL durability semantics trusted",
         technique="receiver-type/provenance inventory of SQL execution sites, dominance, table-set agreement",
         ref="§3 C06"),
     "C07": dict(
         text="Decides structural clauses of local writes: error edges before commit reach return without publishing or broadcasting; commit_snapshot and "
              "the broadcast spawn are dominated by commit's Ok edge and by the 'changes exist' arm; the write connection and the own booked write guard "
-             "are held across the transaction; broadcast chunking uses 0..=last_seq of the same version. Does NOT decide gap-freeness of cr-sqlite's counter.",
+             "are held across the transaction; broadcast chunking uses 0..=last_seq of the same version and waits for queue capacity; 'nothing to book' is answered "
+             "only when MAX(seq) is NULL; a chunker row error stops the announcement. Does NOT decide gap-freeness of cr-sqlite's counter.",
         note="rusqlite rollback-on-drop, cr-sqlite db_version counter trusted",
         technique="MIR dominance / error-edge reachability / held-resource dataflow",
         ref="§3 C07"),
     "C08": dict(
         text="Decides the inductive-step facts of the tiling proof in ChunkedChanges::next (each yielded range starts at the cursor; a non-final yield ends "
-             "at the last pushed seq and advances the cursor to it + 1; the final yield ends at last_seq and latches done) and stride/length agreement of "
+             "at the last pushed seq and advances the cursor to it + 1; the final yield ends at last_seq, latches done and is entered only when the row source is "
+             "exhausted or the last seq was pushed) and stride/length agreement of "
              "chunk_range. Does NOT evaluate inputs nor decide the premise (strictly increasing seqs).",
         note="inputs strictly increasing within [start,last] is the theorem's premise, not decided",
         technique="provenance slices on the cursor fields + dominance",
@@ -66,8 +73,9 @@ CLAIMS = {
     "C09": dict(
         text="Strong on totality: over the call-graph closure of every decode entry point (UniPayload/BiPayload/SyncMessage decode, unpack_columns, every "
              "workspace Readable impl) no reachable panic site, no peer-derived unchecked allocation size, no unchecked UTF-8 constructor, no unguarded "
-             "bytes::Buf read. Structural on round-trip: writer/reader call shapes and tag constants agree per variant. Value-level round-trip equality "
-             "and byte compatibility with cr-sqlite's packer are NOT decided.",
+             "bytes::Buf read (directly or at every call site of a read helper), variable widths within 1..=8. Structural on round-trip: writer/reader call shapes, loop "
+             "bounds, tag constants and the integer width/extension convention agree. Value-level round-trip equality in general and byte compatibility with "
+             "cr-sqlite's packer are NOT decided.",
         note="speedy's own Reader methods are bounded by remaining input (read 0.8.7 source); third-party decoders (foca/bincode) trusted",
         technique="effect reachability over the decode call-graph closure + provenance of allocation sizes + codec shape agreement",
         ref="§3 C09"),
@@ -80,7 +88,8 @@ CLAIMS = {
         ref="§3 C10"),
     "C12": dict(
         text="Decides the 'stop instead of continuing past a gap' clause only: Lagged receivers return; failed catch-up returns without forwarding; buffered "
-             "events are forwarded iff id > last id; the client reports MissedChange exactly when id != last+1 and resumes from its last id. The race between "
+             "events are forwarded iff id > last id; the client reports MissedChange exactly when id != last+1 and resumes from its last id; the attach snapshot (rows + "
+             "last change id) is read inside one transaction at every call site. The race between "
              "catch-up and live events is a schedule property and is NOT decided.",
         note="tokio broadcast Lagged semantics trusted",
         technique="MIR reachability from error arms + guard truth tables",
@@ -94,7 +103,8 @@ CLAIMS = {
         ref="§3 C13"),
     "C14": dict(
         text="Decides narrow structural clauses: every commit path feeds both the subscription and the update managers after commit; the stale-suppression "
-             "guard skips exactly cached cl > incoming cl; delete iff even causal length; the per-table filter is column-independent. "
+             "guard skips exactly cached cl > incoming cl; delete iff even causal length; the per-table filter is column-independent; the causal-length cache is trimmed "
+             "only from its oldest end. "
              "Ordering under out-of-order merge and bounded-cache effects are NOT decided.",
         note="histories/schedules not decided",
         technique="paired-call agreement + guard truth tables",
